@@ -5,6 +5,7 @@
 From Coq Require Import List ZArith Bool Arith Lia Permutation.
 From NT Require Import Sx Rose ListFacts RoseFacts Surgery SurgeryFacts Machine WF MachineFacts PreserveSteps PreserveOps
   PreserveMore PreserveKeepClones Effects EffectsClones HeapMore HeapFromDict.
+From NT Require Filter FilterProofs.
 Import ListNotations.
 
 (* ------------------------------------------------------------------ *)
@@ -593,4 +594,361 @@ Proof.
   change (a :: acts) with ([a] ++ acts) in *. rewrite Bof_app, Kof_app in *.
   rewrite IH; [|apply (WF_apply_fact t a W)|intros Y; apply Nz; apply in_or_app; now right].
   rewrite apply_fact_cut; [apply cut_cut_f|assumption|intros Y; apply Nz; apply in_or_app; now left].
+Qed.
+
+(* -- the visit of Node.filter against the specification F of Forest/Filter.v -- *)
+Definition conv (x : verdict) : Filter.verdict :=
+  match x with
+  | VTrue => Filter.VTrue | VFalse => Filter.VFalse | VSkip => Filter.VSkip | VSkipKeep => Filter.VSkipKeepSelf
+  | VSelect => Filter.VSelect | VStop => Filter.VStop | VRaise => Filter.VFalse
+  end.
+Definition vof (vd : verdicts) : nat -> Filter.verdict := fun id => conv (verdict_of vd id).
+
+Fixpoint fgo (vd : verdicts) (l : list rt) (s : bool) (pend : list nat) (must : bool) (acts : list fact) {struct l}
+  : bool * list fact * bool * bool :=
+  match l with
+  | [] => (must, acts ++ map FBranch pend, s, false)
+  | c :: l' =>
+      match (if s then VSkip else verdict_of vd (rid c)) with
+      | VRaise => (must, acts, s, true)
+      | VStop => fgo vd l' true (pend ++ [rid c]) must acts
+      | VSkip => fgo vd l' s (pend ++ [rid c]) must acts
+      | VSkipKeep => fgo vd l' s pend true (acts ++ [FKids (rid c)])
+      | VSelect => fgo vd l' s pend true acts
+      | VTrue =>
+          match fvisit vd c s with
+          | (_, a, s', true) => (must, acts ++ a, s', true)
+          | (_, a, s', false) => fgo vd l' s' pend true (acts ++ a)
+          end
+      | VFalse =>
+          match fvisit vd c s with
+          | (_, a, s', true) => (must, acts ++ a, s', true)
+          | (true, a, s', false) => fgo vd l' s' pend true (acts ++ a)
+          | (false, a, s', false) => fgo vd l' s' (pend ++ [rid c]) must (acts ++ a)
+          end
+      end
+  end.
+
+Lemma fvisit_unfold vd id i ch s : fvisit vd (T id i ch) s = fgo vd ch s [] false [].
+Proof.
+  cbn [fvisit].
+  match goal with |- ?g ch s [] false [] = _ =>
+    assert (H : forall l s pend must acts, g l s pend must acts = fgo vd l s pend must acts); [|apply H] end.
+  induction l as [|c l IH]; intros s0 pend must acts; [reflexivity|]. cbn [fgo].
+  destruct (if s0 then VSkip else verdict_of vd (rid c)); try apply IH; try reflexivity.
+  - destruct (fvisit vd c s0) as [[[m a] s'] [|]]; [reflexivity|apply IH].
+  - destruct (fvisit vd c s0) as [[[[|] a] s'] [|]]; try reflexivity; apply IH.
+Qed.
+
+Lemma inl_app x a b : inl x (a ++ b) = inl x a || inl x b.
+Proof. unfold inl. apply existsb_app. Qed.
+
+Lemma inl_in x l : inl x l = true <-> In x l.
+Proof.
+  unfold inl. rewrite existsb_exists. split; [intros (y & Hy & E); apply Nat.eqb_eq in E; now subst|].
+  intros H. exists x. split; [assumption|apply Nat.eqb_refl].
+Qed.
+
+(* cutting a child list with removals that are sorted by where they apply *)
+Lemma cons_cut id i ch l' a1 X' pend' :
+  NoDup (ids (T id i ch :: l')) ->
+  (forall x, In x (Bof a1) -> In x (ids ch)) -> (forall x, In x (Kof a1) -> x = id \/ In x (ids ch)) ->
+  (forall x, In x (Bof X') -> In x (ids l') \/ In x pend') -> (forall x, In x (Kof X') -> In x (ids l')) ->
+  (forall x, In x pend' -> ~ In x (ids l') /\ ~ In x (ids ch)) ->
+  cut (Bof (a1 ++ X')) (Kof (a1 ++ X')) (T id i ch :: l') =
+  (if inl id (Bof X') then [] else [T id i (if inl id (Kof a1) then [] else cut (Bof a1) (Kof a1) ch)]) ++ cut (Bof X') (Kof X') l'.
+Proof.
+  intros ND B1 K1 B2 K2 Pd. rewrite ids_cons_t, ids_t_unfold in ND. cbn [rid rch] in ND.
+  assert (N1 : ~ In id (ids ch ++ ids l')) by (now apply NoDup_cons_iff in ND).
+  assert (ND2 : NoDup (ids ch ++ ids l')) by (now apply NoDup_cons_iff in ND).
+  assert (Dj : forall x, In x (ids ch) -> ~ In x (ids l')) by (intros x H1 H2; exact (NoDup_app_disj _ _ x ND2 H1 H2)).
+  rewrite Bof_app, Kof_app. cbn [flat_map cut_t]. rewrite !inl_app.
+  assert (E1 : inl id (Bof a1) = false).
+  { apply inl_false. intros Y. apply N1. apply in_or_app. left. now apply B1. }
+  assert (E2 : inl id (Kof X') = false).
+  { apply inl_false. intros Y. apply N1. apply in_or_app. right. now apply K2. }
+  rewrite E1, E2, orb_false_r. cbn [orb]. f_equal.
+  - destruct (inl id (Bof X')); [reflexivity|]. f_equal. f_equal. destruct (inl id (Kof a1)); [reflexivity|].
+    apply cut_ext_f. intros x Hx. rewrite !inl_app. split.
+    + replace (inl x (Bof X')) with false; [apply orb_false_r|]. symmetry. apply inl_false. intros Y.
+      destruct (B2 x Y) as [Z|Z]; [exact (Dj x Hx Z)|]. now apply (Pd x Z).
+    + replace (inl x (Kof X')) with false; [apply orb_false_r|]. symmetry. apply inl_false. intros Y. exact (Dj x Hx (K2 x Y)).
+  - apply cut_ext_f. intros x Hx. rewrite !inl_app. split.
+    + replace (inl x (Bof a1)) with false; [reflexivity|]. symmetry. apply inl_false. intros Y. exact (Dj x (B1 x Y) Hx).
+    + replace (inl x (Kof a1)) with false; [reflexivity|]. symmetry. apply inl_false. intros Y.
+      destruct (K1 x Y) as [->|Z]; [apply N1; apply in_or_app; now right|exact (Dj x Z Hx)].
+Qed.
+
+Lemma assemble id i ch l' pend a1 X' (padd : bool) :
+  NoDup (ids (T id i ch :: l')) -> (forall x, In x pend -> ~ In x (ids (T id i ch :: l'))) ->
+  let pend' := if padd then pend ++ [id] else pend in
+  incl pend' (Bof X') -> (forall x, In x (Bof X') -> In x (ids l') \/ In x pend') -> (forall x, In x (Kof X') -> In x (ids l')) ->
+  (forall x, In x (Bof a1) -> In x (ids ch)) -> (forall x, In x (Kof a1) -> x = id \/ In x (ids ch)) ->
+  incl pend (Bof (a1 ++ X')) /\
+  (forall x, In x (Bof (a1 ++ X')) -> In x (ids (T id i ch :: l')) \/ In x pend) /\
+  (forall x, In x (Kof (a1 ++ X')) -> In x (ids (T id i ch :: l'))) /\
+  cut (Bof (a1 ++ X')) (Kof (a1 ++ X')) (T id i ch :: l') =
+  (if padd then [] else [T id i (if inl id (Kof a1) then [] else cut (Bof a1) (Kof a1) ch)]) ++ cut (Bof X') (Kof X') l'.
+Proof.
+  intros ND Pd pend' I1 B2 K2 B1 K1.
+  assert (ND' := ND). rewrite ids_cons_t, ids_t_unfold in ND'. cbn [rid rch] in ND'.
+  assert (N1 : ~ In id (ids ch ++ ids l')) by (now apply NoDup_cons_iff in ND').
+  assert (InC : forall x, In x (ids (T id i ch :: l')) <-> x = id \/ In x (ids ch) \/ In x (ids l')).
+  { intros x. rewrite in_ids_cons, in_ids_t. tauto. }
+  assert (Pd' : forall x, In x pend' -> ~ In x (ids l') /\ ~ In x (ids ch)).
+  { intros x Hx. unfold pend' in Hx. assert (Hx' : In x pend \/ (padd = true /\ x = id)).
+    { destruct padd; [apply in_app_or in Hx; destruct Hx as [Hx|[<-|[]]]; auto|auto]. }
+    destruct Hx' as [Hx'|[_ ->]].
+    - assert (Y := Pd x Hx'). rewrite InC in Y. tauto.
+    - split; intros Y; apply N1; apply in_or_app; auto. }
+  assert (Ip : incl pend pend') by (unfold pend'; destruct padd; [apply incl_appl|]; apply incl_refl).
+  rewrite Bof_app, Kof_app. refine (conj _ (conj _ (conj _ _))).
+  - intros x Hx. apply in_or_app. right. apply I1. now apply Ip.
+  - intros x Hx. rewrite InC. apply in_app_or in Hx. destruct Hx as [Hx|Hx]; [left; right; left; now apply B1|].
+    destruct (B2 x Hx) as [Y|Y]; [tauto|]. unfold pend' in Y. destruct padd; [|tauto].
+    apply in_app_or in Y. destruct Y as [Y|[<-|[]]]; tauto.
+  - intros x Hx. rewrite InC. apply in_app_or in Hx. destruct Hx as [Hx|Hx]; [destruct (K1 x Hx); tauto|right; right; now apply K2].
+  - rewrite <- Bof_app, <- Kof_app, (cons_cut id i ch l' a1 X' pend' ND B1 K1 B2 K2 Pd'). f_equal.
+    unfold pend' in *. destruct padd.
+    + rewrite (inl_true id (Bof X')); [reflexivity|]. apply I1. apply in_or_app. right. now left.
+    + rewrite (inl_false id (Bof X')); [reflexivity|]. intros Y. destruct (B2 id Y) as [Z|Z].
+      * apply N1. apply in_or_app. now right.
+      * apply (Pd id Z). apply InC. now left.
+Qed.
+
+Definition FOK (vd : verdicts) (t : rt) : Prop :=
+  forall s m a s', NoDup (ids_t t) -> fvisit vd t s = (m, a, s', false) ->
+    (forall x, In x (Bof a) -> In x (ids (rch t))) /\ (forall x, In x (Kof a) -> In x (ids (rch t))) /\
+    cut (Bof a) (Kof a) (rch t) = fst (Filter.F_f (vof vd) s (rch t)) /\
+    s' = snd (Filter.F_f (vof vd) s (rch t)) /\
+    m = negb (Filter.is_nil (fst (Filter.F_f (vof vd) s (rch t)))).
+
+Lemma fgo_spec vd l : Forall (FOK vd) l -> NoDup (ids l) ->
+  forall s pend must acts m a s', (forall x, In x pend -> ~ In x (ids l)) ->
+    fgo vd l s pend must acts = (m, a, s', false) ->
+    exists X, a = acts ++ X /\ incl pend (Bof X) /\
+      (forall x, In x (Bof X) -> In x (ids l) \/ In x pend) /\ (forall x, In x (Kof X) -> In x (ids l)) /\
+      cut (Bof X) (Kof X) l = fst (Filter.F_f (vof vd) s l) /\
+      s' = snd (Filter.F_f (vof vd) s l) /\
+      m = must || negb (Filter.is_nil (fst (Filter.F_f (vof vd) s l))).
+Proof.
+  induction 1 as [|c l' Hc Hl IH]; intros ND s pend must acts m a s' Pd H.
+  - cbn [fgo] in H. injection H as <- <- <-. exists (map FBranch pend). rewrite Bof_branches, Kof_branches.
+    refine (conj eq_refl (conj (incl_refl _) (conj (fun x Hx => or_intror Hx) (conj (fun x (Hx : In x []) => match Hx with end) (conj eq_refl (conj eq_refl _)))))).
+    cbn. now rewrite orb_false_r.
+  - destruct c as [id i ch]. assert (ND' := ND). rewrite ids_cons_t in ND'.
+    assert (NDc : NoDup (ids_t (T id i ch))) by (now apply NoDup_app_l in ND').
+    assert (NDl : NoDup (ids l')) by (now apply NoDup_app_r in ND').
+    assert (Hidl : ~ In id (ids l')).
+    { intros Y. apply (NoDup_app_disj _ _ id ND'); [apply in_ids_t; now left|exact Y]. }
+    assert (Pdl : forall x, In x pend -> ~ In x (ids l')) by (intros x Hx Y; apply (Pd x Hx); apply in_ids_cons; now right).
+    assert (Pdl' : forall x, In x (pend ++ [id]) -> ~ In x (ids l')).
+    { intros x Hx. apply in_app_or in Hx. destruct Hx as [Hx|[<-|[]]]; [now apply Pdl|exact Hidl]. }
+    rewrite FilterProofs.F_f_cons, FilterProofs.F_t_unfold. cbn [fgo rid] in H.
+    (* what a finished rest gives, put together with what was done for this child *)
+    assert (Fin : forall (padd : bool) (a1 : list fact) (s1 must1 : bool) (keepc : option rt),
+      fgo vd l' s1 (if padd then pend ++ [id] else pend) must1 (acts ++ a1) = (m, a, s', false) ->
+      (forall x, In x (Bof a1) -> In x (ids ch)) -> (forall x, In x (Kof a1) -> x = id \/ In x (ids ch)) ->
+      (if padd then [] else [T id i (if inl id (Kof a1) then [] else cut (Bof a1) (Kof a1) ch)]) = Filter.ocons keepc [] ->
+      must1 = must || negb (Filter.is_nil (Filter.ocons keepc [])) ->
+      exists X, a = acts ++ X /\ incl pend (Bof X) /\
+        (forall x, In x (Bof X) -> In x (ids (T id i ch :: l')) \/ In x pend) /\ (forall x, In x (Kof X) -> In x (ids (T id i ch :: l'))) /\
+        cut (Bof X) (Kof X) (T id i ch :: l') = Filter.ocons keepc (fst (Filter.F_f (vof vd) s1 l')) /\
+        s' = snd (Filter.F_f (vof vd) s1 l') /\
+        m = must || negb (Filter.is_nil (Filter.ocons keepc (fst (Filter.F_f (vof vd) s1 l'))))).
+    { intros padd a1 s1 must1 keepc H1 B1 K1 Ek Em.
+      destruct (IH NDl s1 _ must1 (acts ++ a1) m a s' (if padd as b return (forall x, In x (if b then pend ++ [id] else pend) -> ~ In x (ids l')) then Pdl' else Pdl) H1)
+        as (X' & Ea & I1 & B2 & K2 & Ec & Es & Emm).
+      destruct (assemble id i ch l' pend a1 X' padd ND Pd I1 B2 K2 B1 K1) as (J1 & J2 & J3 & J4).
+      exists (a1 ++ X'). refine (conj _ (conj J1 (conj J2 (conj J3 (conj _ (conj Es _)))))).
+      - now rewrite Ea, app_assoc.
+      - rewrite J4, Ek, Ec. now destruct keepc.
+      - rewrite Emm, Em. destruct keepc; cbn [Filter.ocons Filter.is_nil negb]; [now rewrite orb_true_r|now rewrite orb_false_r]. }
+    assert (NoB : forall x, In x (Bof []) -> In x (ids ch)) by (intros x []).
+    assert (NoK : forall x, In x (Kof []) -> x = id \/ In x (ids ch)) by (intros x []).
+    destruct s.
+    + (* stopped: the child goes *)
+      cbn [fst snd]. rewrite <- (app_nil_r acts) in H.
+      exact (Fin true [] true must None H NoB NoK eq_refl (eq_sym (orb_false_r must))).
+    + assert (Ev' : vof vd id = conv (verdict_of vd id)) by reflexivity. rewrite Ev'. clear Ev'. revert H.
+      destruct (verdict_of vd id) eqn:Ev; cbn [conv fst snd]; intros H.
+      * (* True *)
+        destruct (fvisit vd (T id i ch) false) as [[[m1 a1] s1] [|]] eqn:Ef; [discriminate|].
+        destruct (Hc false m1 a1 s1 NDc Ef) as (B1 & K1 & Ec1 & Es1 & Em1). cbn [rch] in *.
+        destruct (Fin false a1 s1 true (Some (T id i (fst (Filter.F_f (vof vd) false ch)))) H B1 (fun x Hx => or_intror (K1 x Hx))) as (X & R).
+        { rewrite inl_false, Ec1; [reflexivity|]. intros Y. apply K1 in Y. rewrite ids_t_unfold in NDc. cbn [rid rch] in NDc. now apply NoDup_cons_iff in NDc. }
+        { cbn. now rewrite orb_true_r. }
+        exists X. now rewrite <- Es1.
+      * (* False *)
+        destruct (fvisit vd (T id i ch) false) as [[[m1 a1] s1] fl] eqn:Ef.
+        assert (fl = false) by (destruct fl; [destruct m1; discriminate|reflexivity]). subst fl.
+        destruct (Hc false m1 a1 s1 NDc Ef) as (B1 & K1 & Ec1 & Es1 & Em1). cbn [rch] in *.
+        assert (Kn : inl id (Kof a1) = false).
+        { apply inl_false. intros Y. apply K1 in Y. rewrite ids_t_unfold in NDc. cbn [rid rch] in NDc. now apply NoDup_cons_iff in NDc. }
+        rewrite <- Es1. destruct m1.
+        -- destruct (Filter.is_nil (fst (Filter.F_f (vof vd) false ch))) eqn:En; [discriminate|]. cbn [fst].
+           apply (Fin false a1 s1 true (Some (T id i (fst (Filter.F_f (vof vd) false ch)))) H B1 (fun x Hx => or_intror (K1 x Hx))).
+           ++ now rewrite Kn, Ec1.
+           ++ cbn. now rewrite orb_true_r.
+        -- destruct (Filter.is_nil (fst (Filter.F_f (vof vd) false ch))) eqn:En; [|discriminate]. cbn [fst].
+           apply (Fin true a1 s1 must None H B1 (fun x Hx => or_intror (K1 x Hx)) eq_refl). cbn. now rewrite orb_false_r.
+      * (* SkipBranch *)
+        rewrite <- (app_nil_r acts) in H. exact (Fin true [] false must None H NoB NoK eq_refl (eq_sym (orb_false_r must))).
+      * (* SkipBranch(and_self=False) *)
+        apply (Fin false [FKids id] false true (Some (T id i [])) H).
+        -- intros x [].
+        -- intros x [<-|[]]. now left.
+        -- cbn [Kof flat_map app inl existsb]. now rewrite Nat.eqb_refl.
+        -- cbn. now rewrite orb_true_r.
+      * (* SelectBranch *)
+        rewrite <- (app_nil_r acts) in H. apply (Fin false [] false true (Some (T id i ch)) H NoB NoK).
+        -- cbn [Kof Bof flat_map inl existsb]. now rewrite cut_nil_f.
+        -- cbn. now rewrite orb_true_r.
+      * (* StopTraversal *)
+        rewrite <- (app_nil_r acts) in H. exact (Fin true [] true must None H NoB NoK eq_refl (eq_sym (orb_false_r must))).
+      * discriminate.
+Qed.
+
+Lemma fok_all vd : forall t, FOK vd t.
+Proof.
+  induction t as [id i ch IH] using rt_ind'. intros s m a s' ND H. rewrite fvisit_unfold in H. cbn [rch].
+  rewrite ids_t_unfold in ND. cbn [rid rch] in ND. apply NoDup_cons_iff in ND. destruct ND as [_ ND].
+  destruct (fgo_spec vd ch IH ND s [] false [] m a s' (fun x (Hx : In x []) => match Hx with end) H) as (X & Ea & _ & B & K & Ec & Es & Em).
+  cbn [app] in Ea. subst X. refine (conj _ (conj K (conj Ec (conj Es Em)))).
+  intros x Hx. destruct (B x Hx) as [Y|[]]. exact Y.
+Qed.
+
+(* removals below one parent leave the rest of the forest alone *)
+Lemma cut_local B K : forall pq f ch, get_ch pq f = Some ch -> NoDup (ids f) ->
+  (forall x, In x B \/ In x K -> In x (ids ch)) -> cut B K f = upd_ch pq (fun _ => cut B K ch) f.
+Proof.
+  induction pq as [|j rest IH]; intros f ch G ND Sub.
+  - cbn in G. injection G as <-. reflexivity.
+  - cbn [get_ch] in G. destruct (nth_error f j) as [t|] eqn:E; [|discriminate].
+    destruct (nth_error_split f j E) as (a & b & -> & <-). cbn [upd_ch]. rewrite upd_nth_split, !cut_app. cbn [flat_map].
+    rewrite ids_app, ids_cons_t in ND.
+    assert (Sc : incl (ids ch) (ids (rch t))) by (apply (ids_sub_child rest); exact G).
+    assert (St : forall x, In x (ids (rch t)) -> In x (ids_t t)) by (intros x Hx; destruct t; apply in_ids_t; now right).
+    assert (Ca : cut B K a = a).
+    { apply cut_absent. intros x Hx. split; intros Y; apply (NoDup_app_disj _ _ x ND Hx); apply in_or_app; left; apply St, Sc, Sub; auto. }
+    assert (Cb : cut B K b = b).
+    { apply cut_absent. intros x Hx. apply NoDup_app_r in ND. split; intros Y; apply (NoDup_app_disj _ _ x ND (St x (Sc x (Sub x ltac:(auto)))) Hx). }
+    rewrite Ca, Cb. destruct t as [id i c0]. cbn [rch set_ch cut_t] in *.
+    assert (NDt : NoDup (ids_t (T id i c0))) by (apply NoDup_app_r in ND; now apply NoDup_app_l in ND).
+    rewrite ids_t_unfold in NDt. cbn [rid rch] in NDt. apply NoDup_cons_iff in NDt. destruct NDt as [Ni NDc].
+    rewrite !inl_false by (intros Y; apply Ni, Sc, Sub; auto). cbn [app]. now rewrite (IH c0 ch G NDc Sub).
+Qed.
+
+(* what survives a cut survives with its payload, below the same parent, in the same order *)
+Lemma cut_emb B K : forall f, Filter.emb (cut B K f) f.
+Proof.
+  assert (Ht : forall t a b, Filter.emb a b -> Filter.emb (cut_t B K t ++ a) (t :: b)).
+  { induction t as [id i ch IH] using rt_ind'. intros a b Hab. cbn [cut_t]. destruct (inl id B); cbn [app]; [now constructor|].
+    constructor; [|assumption]. destruct (inl id K); [constructor|].
+    induction ch as [|c ch IHch]; [constructor|]. inversion IH as [|? ? Hc Hcs]; subst. cbn [flat_map]. apply Hc. now apply IHch. }
+  induction f as [|t f IH]; [constructor|]. cbn [flat_map]. now apply Ht.
+Qed.
+
+(* in-place filter: the child list below the start node becomes F of it (the specification of
+   Forest/Filter.v, with the predicate's verdicts); the rest of the tree and all other trees are untouched *)
+Theorem filter_effect w ti n vd r w' : WFw w ->
+  op_filter w ti n vd = (Ok r, w') ->
+  exists t t' pq ch,
+    get_tree w ti = Some t /\ get_tree w' ti = Some t' /\
+    parent_path n (forest_of t) = Some pq /\ get_ch pq (forest_of t) = Some ch /\
+    forest_of t' = upd_ch pq (fun _ => Filter.F (vof vd) ch) (forest_of t) /\
+    r = [] /\ next w' = next w /\ (forall tj, tj <> ti -> get_tree w' tj = get_tree w tj).
+Proof.
+  intros W H. unfold op_filter, children_of in H. destruct (get_tree w ti) as [t|] eqn:Gt; [|discriminate].
+  destruct (parent_path n (forest_of t)) as [pq|] eqn:Gp; [|discriminate].
+  destruct (get_ch pq (forest_of t)) as [ch|] eqn:Gc; [|discriminate].
+  destruct (fvisit vd (T 0 dummy_info ch) false) as [[[m acts] s'] [|]] eqn:Ef; [discriminate|]. injection H as <- <-.
+  assert (Wt := WFw_tree w ti t W Gt). assert (ND := wf_nodup t Wt).
+  assert (Sc : incl (ids ch) (ids (forest_of t))) by (apply (ids_sub_child pq); exact Gc).
+  assert (Z : ~ In 0 (ids ch)) by (intros Y; apply (wf_pos t Wt); now apply Sc).
+  assert (NDr : NoDup (ids_t (T 0 dummy_info ch))).
+  { rewrite ids_t_unfold. cbn [rid rch]. constructor; [exact Z|]. now apply (NoDup_child_list pq (forest_of t)). }
+  destruct (fok_all vd (T 0 dummy_info ch) false m acts s' NDr Ef) as (B & K & Ec & _ & _). cbn [rch] in *.
+  eexists t, _, pq, ch. split; [reflexivity|]. split; [exact (get_put_same _ _ t _ Gt)|]. split; [exact Gp|]. split; [exact Gc|].
+  split; [|split; [reflexivity|split; [reflexivity|intros tj Hj; rewrite get_put_other by congruence; reflexivity]]].
+  rewrite apply_facts_cut; [|assumption|intros Y; apply Z; now apply K].
+  rewrite (cut_local (Bof acts) (Kof acts) pq _ ch Gc ND); [|intros x [Hx|Hx]; auto]. unfold Filter.F. now rewrite Ec.
+Qed.
+
+(* whatever the outcome of the visit, its removals concern nodes below the start node only *)
+Definition FSub (vd : verdicts) (t : rt) : Prop :=
+  forall s m a s' fl, fvisit vd t s = (m, a, s', fl) -> forall x, In x (Bof a) \/ In x (Kof a) -> In x (ids (rch t)).
+
+Lemma fgo_sub vd l : Forall (FSub vd) l ->
+  forall s pend must acts m a s' fl, fgo vd l s pend must acts = (m, a, s', fl) ->
+    exists X, a = acts ++ X /\ forall x, In x (Bof X) \/ In x (Kof X) -> In x (ids l) \/ In x pend.
+Proof.
+  induction 1 as [|c l' Hc Hl IH]; intros s pend must acts m a s' fl H.
+  - cbn [fgo] in H. injection H as <- <- <- <-. exists (map FBranch pend). split; [reflexivity|].
+    rewrite Bof_branches, Kof_branches. intros x [Hx|[]]. now right.
+  - assert (Rest : forall s1 (padd : bool) must1 a1, fgo vd l' s1 (if padd then pend ++ [rid c] else pend) must1 (acts ++ a1) = (m, a, s', fl) ->
+              (forall x, In x (Bof a1) \/ In x (Kof a1) -> In x (ids_t c)) ->
+              exists X, a = acts ++ X /\ forall x, In x (Bof X) \/ In x (Kof X) -> In x (ids (c :: l')) \/ In x pend).
+    { intros s1 padd must1 a1 H1 S1. destruct (IH _ _ _ _ _ _ _ _ H1) as (X' & Ea & S2). exists (a1 ++ X'). split; [now rewrite Ea, app_assoc|].
+      intros x Hx. rewrite Bof_app, Kof_app, !in_app_iff in Hx. rewrite in_ids_cons.
+      assert (Hx' : (In x (Bof a1) \/ In x (Kof a1)) \/ (In x (Bof X') \/ In x (Kof X'))) by tauto. destruct Hx' as [Hx'|Hx'].
+      - left. left. now apply S1.
+      - destruct (S2 x Hx') as [Y|Y]; [tauto|]. destruct padd; [|tauto]. apply in_app_or in Y. destruct Y as [Y|[<-|[]]]; [tauto|].
+        left. left. destruct c. apply in_ids_t. now left. }
+    assert (No : forall x, In x (Bof []) \/ In x (Kof []) -> In x (ids_t c)) by (intros x [[]|[]]).
+    assert (Sc : forall s0 m1 a1 s1 f1, fvisit vd c s0 = (m1, a1, s1, f1) -> forall x, In x (Bof a1) \/ In x (Kof a1) -> In x (ids_t c)).
+    { intros s0 m1 a1 s1 f1 Ef x Hx. destruct c as [id i ch]. apply in_ids_t. right. exact (Hc s0 m1 a1 s1 f1 Ef x Hx). }
+    assert (Stop : forall a1, (forall x, In x (Bof a1) \/ In x (Kof a1) -> In x (ids_t c)) ->
+              exists X, acts ++ a1 = acts ++ X /\ forall x, In x (Bof X) \/ In x (Kof X) -> In x (ids (c :: l')) \/ In x pend).
+    { intros a1 S1. exists a1. split; [reflexivity|]. intros x Hx. left. apply in_ids_cons. left. now apply S1. }
+    cbn [fgo] in H. destruct (if s then VSkip else verdict_of vd (rid c)).
+    + destruct (fvisit vd c s) as [[[m1 a1] s1] [|]] eqn:Ef.
+      * injection H as <- <- <- <-. exact (Stop a1 (Sc _ _ _ _ _ Ef)).
+      * exact (Rest s1 false true a1 H (Sc _ _ _ _ _ Ef)).
+    + destruct (fvisit vd c s) as [[[[|] a1] s1] [|]] eqn:Ef.
+      * injection H as <- <- <- <-. exact (Stop a1 (Sc _ _ _ _ _ Ef)).
+      * exact (Rest s1 false true a1 H (Sc _ _ _ _ _ Ef)).
+      * injection H as <- <- <- <-. exact (Stop a1 (Sc _ _ _ _ _ Ef)).
+      * exact (Rest s1 true must a1 H (Sc _ _ _ _ _ Ef)).
+    + rewrite <- (app_nil_r acts) in H. exact (Rest s true must [] H No).
+    + apply (Rest s false true [FKids (rid c)] H). intros x [[]|[<-|[]]]. destruct c. apply in_ids_t. now left.
+    + rewrite <- (app_nil_r acts) in H. exact (Rest s false true [] H No).
+    + rewrite <- (app_nil_r acts) in H. exact (Rest true true must [] H No).
+    + injection H as <- <- <- <-. exists []. split; [now rewrite app_nil_r|]. intros x [[]|[]].
+Qed.
+
+Lemma fsub_all vd : forall t, FSub vd t.
+Proof.
+  induction t as [id i ch IH] using rt_ind'. intros s m a s' fl H x Hx. rewrite fvisit_unfold in H. cbn [rch].
+  destruct (fgo_sub vd ch IH _ _ _ _ _ _ _ _ H) as (X & Ea & S). cbn [app] in Ea. subst X. destruct (S x Hx) as [Y|[]]. exact Y.
+Qed.
+
+(* in-place filter, whatever its outcome (the predicate may have raised: then the removals made so far
+   stay): only the branch below the start node changes, and what is left of it is an embedding of what was
+   there - every surviving node keeps its payload, its parent and its order among the survivors *)
+Theorem filter_frame w ti n vd r w' : WFw w ->
+  op_filter w ti n vd = (r, w') -> forall t, get_tree w ti = Some t ->
+  exists t', get_tree w' ti = Some t' /\
+    match parent_path n (forest_of t) with
+    | Some pq => match get_ch pq (forest_of t) with
+                 | Some ch => exists ch', forest_of t' = upd_ch pq (fun _ => ch') (forest_of t) /\ Filter.emb ch' ch
+                 | None => t' = t
+                 end
+    | None => t' = t
+    end /\ next w' = next w /\ (forall tj, tj <> ti -> get_tree w' tj = get_tree w tj).
+Proof.
+  intros W H t Gt. unfold op_filter, children_of in H. rewrite Gt in H.
+  destruct (parent_path n (forest_of t)) as [pq|] eqn:Gp.
+  2:{ injection H as <- <-. exists t. repeat split; auto. }
+  destruct (get_ch pq (forest_of t)) as [ch|] eqn:Gc.
+  2:{ injection H as <- <-. exists t. repeat split; auto. }
+  destruct (fvisit vd (T 0 dummy_info ch) false) as [[[m acts] s'] fl] eqn:Ef. injection H as <- <-.
+  eexists. split; [exact (get_put_same _ _ t _ Gt)|]. split; [|split; [reflexivity|intros tj Hj; rewrite get_put_other by congruence; reflexivity]].
+  assert (Wt := WFw_tree w ti t W Gt). assert (ND := wf_nodup t Wt).
+  assert (Sc : incl (ids ch) (ids (forest_of t))) by (apply (ids_sub_child pq); exact Gc).
+  assert (Z : ~ In 0 (ids ch)) by (intros Y; apply (wf_pos t Wt); now apply Sc).
+  assert (S := fsub_all vd (T 0 dummy_info ch) false m acts s' fl Ef). cbn [rch] in S.
+  exists (cut (Bof acts) (Kof acts) ch). split; [|apply cut_emb].
+  rewrite apply_facts_cut; [|assumption|intros Y; apply Z; apply S; now right].
+  now apply cut_local.
 Qed.
